@@ -476,7 +476,7 @@ def py_int(tok):
 
 
 def string_layer(ctx):
-    n = ctx.budget(1500, 40000)
+    n = ctx.budget(4000, 60000)
     reqs = ["wslist"]; meta = [("ws", None)]
     for i in range(n):
         rng = ctx.rng("strings", i)
@@ -585,7 +585,7 @@ def run(ctx):
     files = Files()
     try:
         string_layer(ctx)
-        n_files = ctx.budget(260, 6000); n_single = ctx.budget(200, 5000)
+        n_files = ctx.budget(650, 9000); n_single = ctx.budget(450, 6000)
         cases = []      # (stream, i, kind, fn_name, lines, specs or None, must_raise, in_zero)
         for i in range(n_files):
             rng = ctx.rng("files", i)
